@@ -75,6 +75,27 @@ def make_stub(m, config, stop):
     return Stub()
 
 
+_GUARDED = None
+
+
+def probe_guarded(m):
+    """Which variant of the 'limit already at the stop point' early return does the code under test have?
+    P1 on 1..10, limit P1, stop point 4: base 3 -> limit 4 (= stop point); base back to 1 -> the limit stays 4
+    (early return regardless of direction: False) or comes down to 2 (early return only forward: True)."""
+    global _GUARDED
+    if _GUARDED is None:
+        P, S = m.IntegerPoint, m.IntegerSequence
+        icp, fcp = P('1'), P('10')
+        stub = make_stub(m, NS(runahead_limit=m.IntegerInterval('P1'), sequences=[S('P1', icp, fcp)],
+                               start_point=icp), P('4'))
+        for pt in ('3', '1'):
+            t = _Task(P(pt), None, True, 0)
+            stub.active_tasks = {t.point: {t.identity: t}}
+            stub.compute_runahead()
+        _GUARDED = int(stub.runahead_limit_point) == 2
+    return _GUARDED
+
+
 def run_direct(case):
     """-> {"case": <driver case>, "obs": [...]} or {"error": text}"""
     d = case['direct']
@@ -108,6 +129,7 @@ def run_direct(case):
             'seqs': seq_pts,
             'limit': {'count': int(lim[1:])} if count else {'dur': iv_int(I(lim))},
             'start': pt_int(icp), 'stop': None if stop is None else pt_int(stop), 'ops': [],
+            'guarded': probe_guarded(m),
         }
         obs = []
         k = 0
